@@ -348,9 +348,22 @@ where
                     Ok(Some(actual_state)) => match actual_state {
                         IrqState::PreambleReceived => (),
                         IrqState::Done => {
-                            let received_len = self.radio_kind.get_rx_payload(packet_params, receiving_buffer).await?;
-                            let rx_pkt_status = self.radio_kind.get_rx_packet_status().await?;
-                            return Ok((received_len, rx_pkt_status));
+                            let result = match self.radio_kind.get_rx_payload(packet_params, receiving_buffer).await {
+                                Ok(received_len) => self
+                                    .radio_kind
+                                    .get_rx_packet_status()
+                                    .await
+                                    .map(|rx_pkt_status| (received_len, rx_pkt_status)),
+                                Err(err) => Err(err),
+                            };
+                            // a single reception is over once the packet could not be fetched: leave chip
+                            // and driver in standby, as for every other failed reception
+                            if result.is_err() && self.radio_mode != RadioMode::Receive(RxMode::Continuous) {
+                                self.radio_kind.ensure_ready(self.radio_mode).await?;
+                                self.radio_kind.set_standby().await?;
+                                self.radio_mode = RadioMode::Standby;
+                            }
+                            return result;
                         }
                     },
                     Ok(None) => (),
